@@ -18,6 +18,91 @@ KEYWORDS = {"COMMAND", "WORKING_DIRECTORY", "TIMEOUT", "RESULT_VARIABLE", "RESUL
 FILE = "cmake/cminx.cmake"
 
 
+def _option_paths(body, opt_vars, f_in, stop_at):
+    """Enumerate the paths through the function body up to the CMinx execute_process: (input is a directory?, undecided
+    conditions taken, tokens of the options variable or None when never set).  if(IS_DIRECTORY <input>) is decided by
+    the case, every other condition forks."""
+    results = []
+
+    class Stop(Exception):
+        pass
+
+    def cond_value(head: Command, isdir: bool):
+        ws = head.words()
+        neg = False
+        while ws and ws[0] == "NOT":
+            neg = not neg
+            ws = ws[1:]
+        if len(ws) == 2 and ws[0] == "IS_DIRECTORY" and ws[1] in ("${" + f_in + "}", f_in):
+            return isdir != neg
+        return None
+
+    def apply(c: Command, val):
+        ws = c.words()
+        if c.name == "set" and ws and ws[0] in opt_vars:
+            out = []
+            for a in c.args[1:]:
+                if a.kind == "unquoted" and a.text in ("PARENT_SCOPE", "CACHE"):
+                    raise AnalysisError(f"cminx_gen_rst: unexpected {c.text()[:60]}")
+                if a.text in ("${" + ws[0] + "}",):
+                    out.extend(val or [])
+                elif a.text != "":
+                    out.append(a.text)
+            return out
+        if c.name == "unset" and ws and ws[0] in opt_vars:
+            return []
+        if c.name == "list" and len(ws) >= 2 and ws[1] in opt_vars:
+            if ws[0] == "APPEND":
+                return (val or []) + [a.text for a in c.args[2:] if a.text != ""] if (val is not None or True) else None
+            if ws[0] == "PREPEND":
+                return [a.text for a in c.args[2:] if a.text != ""] + (val or [])
+            if ws[0] == "INSERT":
+                return (val or []) + [a.text for a in c.args[3:] if a.text != ""]
+            return val      # filtering commands are reported by C19-R4 directly
+        if c.name in ("string", "cmake_parse_arguments", "separate_arguments", "math", "get_filename_component", "file") \
+                and any(a.kind == "unquoted" and a.text in opt_vars for a in c.args):
+            raise AnalysisError(f"cminx_gen_rst: the options variable is written by `{c.text()[:60]}`, which the reader does not model")
+        return val
+
+    def run_items(items, isdir, trail, val, k):
+        if not items:
+            return k(trail, val)
+        it, rest = items[0], items[1:]
+        if isinstance(it, Command):
+            if it is stop_at:
+                results.append((isdir, trail, val))
+                return
+            return run_items(rest, isdir, trail, apply(it, val), k)
+        if it.kind == "if":
+            arms = [(it.head, it.body)] + list(it.branches)
+
+            def arm(i, trail, val):
+                if i >= len(arms):
+                    return run_items(rest, isdir, trail, val, k)
+                head, body = arms[i]
+                if head.name == "else":
+                    return run_items(list(body), isdir, trail, val, lambda t, v: run_items(rest, isdir, t, v, k))
+                cv = cond_value(head, isdir)
+                if cv is not False:
+                    t2 = trail if cv is True else trail + (" ".join(head.words())[:40],)
+                    run_items(list(body), isdir, t2, val, lambda t, v: run_items(rest, isdir, t, v, k))
+                if cv is not True:
+                    t2 = trail if cv is False else trail + ("NOT(" + " ".join(head.words())[:40] + ")",)
+                    arm(i + 1, t2, val)
+            return arm(0, trail, val)
+        # loops / nested functions: must not touch the options
+        for c, _anc in walk([it]):
+            if c is stop_at or apply(c, ["<probe>"]) != ["<probe>"]:
+                raise AnalysisError(f"cminx_gen_rst: the options or the CMinx call are inside a {it.kind}() block")
+        return run_items(rest, isdir, trail, val, k)
+
+    for isdir in (True, False):
+        run_items(list(body), isdir, (), None, lambda t, v: None)
+    if len(results) > 64:
+        raise AnalysisError("cminx_gen_rst: too many paths")
+    return results
+
+
 def run(rep: Report, repo: Repo, tier: str) -> None:
     rep.unit(FILE, "cmake/templates/cminx-config.cmake.in", "pyproject.toml")
     rep.assume("CMake semantics of execute_process(COMMAND ... COMMAND_ERROR_IS_FATAL ANY), list(APPEND), if(IS_DIRECTORY), "
@@ -133,19 +218,23 @@ def run(rep: Report, repo: Repo, tier: str) -> None:
                 and len(c.args) > 1 and (c.words()[1] in opt_vars or c.words()[1] == "ARGN"):
             rep.bad("C19-R4", where, c.text()[:80], "the forwarded arguments are filtered / reordered before the call",
                     witness="cminx_gen_rst(dir out -e a -e a)")
-    rep.check(len(r_sites) == 1, "C19-R3", where, f"{len(r_sites)} site(s) append '-r'",
-              "'-r' is never added (directories are documented non-recursively) or is added at several places",
-              witness="cminx_gen_rst(nested_dir out)")
-    for c, anc in r_sites:
-        ok = len(anc) == 1 and anc[0][0].kind == "if" and anc[0][1] == "body" and not anc[0][0].branches
-        head = anc[0][0].head if anc else None
-        cond_ok = False
-        if head is not None:
-            ws = head.words()
-            cond_ok = len(ws) == 2 and ws[0] == "IS_DIRECTORY" and ws[1] in ("${" + f_in + "}", f_in)
-        rep.check(ok and cond_ok, "C19-R3", where, (head.text() if head else "unconditional") + " -> " + c.text(),
+    rep.check(len(r_sites) >= 1, "C19-R3", where, f"{len(r_sites)} site(s) add '-r'",
+              "'-r' is never added: directories are documented non-recursively", witness="cminx_gen_rst(nested_dir out)")
+    # the value of the options variable at the execute_process, on every path through the function, for a directory and for a file
+    paths = _option_paths(fn.body, opt_vars, f_in, eps[0][0] if eps else None)
+    for isdir, trail, val in paths:
+        label = f"input is a {'directory' if isdir else 'file'}" + (f", {' & '.join(trail)}" if trail else "")
+        if val is None:
+            rep.bad("C19-R4", where, label + ": options variable not set", "the options variable is not reset on this path: a value from the "
+                    "caller's scope leaks into the command line")
+            continue
+        has_r = any(t in ("-r", "--recursive") for t in val)
+        rep.check(has_r == isdir, "C19-R3", where, f"{label}: options = {val}",
                   "'-r' is not added exactly when the input is a directory (unconditional, inverted, else-branch or another path tested)",
                   witness="cminx_gen_rst(single_file.cmake out) / cminx_gen_rst(dir out)")
+        extra = [t for t in val if t not in ("-r", "--recursive", "${ARGN}")]
+        rep.check(not extra, "C19-R4", where, f"{label}: no other option", f"the options contain {extra}: CMinx receives arguments the "
+                  "caller did not pass")
     rep.check(len(argn_sites) >= 1, "C19-R4", where, "ARGN appended to the options",
               "extra arguments are not forwarded to CMinx", witness="cminx_gen_rst(dir out -p prefix)")
     for c, anc, v in argn_sites:
@@ -158,16 +247,6 @@ def run(rep: Report, repo: Repo, tier: str) -> None:
             t = " ".join(head.words())
             okg = len(anc) == 1 and anc[0][1] == "body" and re.fullmatch(r"\$\{ARGC\} GREATER 2|ARGC GREATER 2|ARGN|\$\{ARGC\} GREATER_EQUAL 3|DEFINED ARGN", t) is not None
             rep.check(okg, "C19-R4", where, head.text(), "ARGN is forwarded only under a condition other than 'extra arguments exist'")
-    # -r must precede nothing in particular; but options var must be initialised empty
-    inits = [c for c, anc in items if c.name == "set" and c.args and c.args[0].text in opt_vars]
-    for c in inits:
-        vals = [a.text for a in c.args[1:]]
-        rep.check(all(v == "" for v in vals) and not [a for a in c.args[1:] if a.kind != "quoted" and a.text], "C19-R4", where, c.text(),
-                  "the options variable starts with a non-empty value: CMinx receives arguments the caller did not pass")
-    if opt_vars:
-        first_use = min(c.line for c, anc in items if any(("${" + v + "}") in a.text or a.text == v for v in opt_vars for a in c.args))
-        rep.check(bool(inits) and min(c.line for c in inits) <= first_use, "C19-R4", where, "options variable initialised before use",
-                  "the options variable is not reset: a value from the caller's scope leaks into the command line")
     # no early return / other side effects
     for c, anc in items:
         if c.name in ("return", "file", "configure_file") or (c.name == "execute_process" and (c, anc) not in eps):
